@@ -16,7 +16,9 @@ def scenarios(rng, n):
         k = i % 6
         if k == 0:   # distinctive alphabet with requirements: retries, possibly exhausted budget
             alpha = rng.sample(GREEK + CJK, rng.randint(3, 8))
-            c = dict(len=rng.randint(4, 9), allow=0, require=0, exclude=0, allowChars=alpha, requireSets=[rng.sample(alpha, 1), rng.sample(PUA, 2)], excludeChars=[])
+            shared = rng.choice(alpha)
+            c = dict(len=rng.randint(4, 9), allow=0, require=0, exclude=0, allowChars=alpha,
+                     requireSets=[rng.sample(alpha, 1), rng.sample(PUA, 2)] + ([[shared, rng.choice(PUA)], [shared, rng.choice(alpha)]] if rng.random() < 0.5 else []), excludeChars=[])
             out.append(dict(kind="char", char=c, maxTrials=rng.choice([1, 2, 5, 0]), failRateOne=1, mode="paths", paths=4, maxLeaves=0, tag="distinctive-retries", reps=0))
         elif k == 1:  # ASCII classes, default budget; first path exhausts all 200 attempts
             c = dict(len=rng.randint(4, 12), allow=rng.choice([15, 7, 3]), require=rng.choice([4, 8, 12, 5]), exclude=rng.choice([0, 16]), allowChars=[],
